@@ -12,13 +12,13 @@ var propertyOrder = []string{"C01", "C02", "C03", "C04", "C05", "C06", "C07", "C
 
 var properties = map[string]*propDef{
 	"C01": {Rules: []string{"TAB-NOTE", "TAB-DEGREE", "TAB-CHORDS", "TAB-DEFAULTS"}},
-	"C02": {Rules: []string{}},
+	"C02": {Rules: []string{"TICKS", "PENDING", "NOTE"}},
 	"C03": {Rules: []string{"TAB-KEYSIG", "TAB-NOTE", "TAB-DEGREE", "TAB-SEARCH"}},
 	"C04": {Rules: []string{}},
 	"C05": {Rules: []string{}},
-	"C06": {Rules: []string{}},
+	"C06": {Rules: []string{"OWN", "TRACKADD", "PENDING", "SELECT", "FLAGS"}},
 	"C07": {Rules: []string{"TAB-KEYSIG", "TAB-DYNAMICS", "TAB-DEFAULTS"}},
-	"C08": {Rules: []string{}},
+	"C08": {Rules: []string{"NOTE", "SELECT", "OPMAP", "TRACKCOUNT", "TAB-DYNAMICS"}},
 	"C09": {Rules: []string{"EXIT", "EOFPRED", "NILOK", "VALIDATE", "REJECT", "MUST", "RECUR", "ERRDROP", "FLAGS", "NARROW", "LOOKUP", "DEBUGOUT"}},
 	"C10": {Rules: []string{"TAB-NOTATION", "TAB-REGEX", "TAB-DYNAMICS"}},
 	"C11": {Rules: []string{}},
